@@ -31,7 +31,17 @@ func (r *Registry) PushBlob(ctx context.Context, repoName string, desc ociregist
 	if err != nil {
 		return ociregistry.Descriptor{}, fmt.Errorf("cannot read content: %v", err)
 	}
-	if err := CheckDescriptor(desc, data); err != nil {
+	// Only the digest and size of desc are significant
+	// (see [ociregistry.Writer.PushBlob]): a missing media type is OK.
+	mediaType := desc.MediaType
+	if mediaType == "" {
+		mediaType = "application/octet-stream"
+	}
+	if err := CheckDescriptor(ociregistry.Descriptor{
+		MediaType: mediaType,
+		Digest:    desc.Digest,
+		Size:      desc.Size,
+	}, data); err != nil {
 		return ociregistry.Descriptor{}, fmt.Errorf("invalid descriptor: %w", err)
 	}
 
@@ -41,7 +51,7 @@ func (r *Registry) PushBlob(ctx context.Context, repoName string, desc ociregist
 	if err != nil {
 		return ociregistry.Descriptor{}, err
 	}
-	repo.blobs[desc.Digest] = &blob{mediaType: desc.MediaType, data: data}
+	repo.blobs[desc.Digest] = &blob{mediaType: mediaType, data: data}
 	return desc, nil
 }
 
